@@ -1,6 +1,7 @@
 package redisemu
 
 import (
+	"math"
 	"math/bits"
 )
 
@@ -144,6 +145,58 @@ func isSignedSumOverflow(a, b int64, bits int) bool {
 		bottom := ^(signBit - 1)
 		return b < (bottom - a)
 	}
+}
+
+// the largest (max true) or smallest value of a bit field
+func bitfieldLimit(signed, max bool, bits int) int64 {
+	if signed {
+		highest := int64(math.MaxInt64)
+		if bits < 64 {
+			highest = (int64(1) << (bits - 1)) - 1
+		}
+		if max {
+			return highest
+		}
+		return -highest - 1
+	}
+
+	// bits max is 63 for unsigned, per redis
+	if max {
+		return (int64(1) << bits) - 1
+	}
+	return 0
+}
+
+// Determines if a bit field write leaves the range of the field: 1 for
+// overflow, -1 for underflow, 0 if the result fits. For SET the result is
+// the operand itself, for INCRBY it is current+operand (current is always
+// in range). A negative operand SET into an unsigned field is an overflow,
+// as the operand is taken as an unsigned 64-bit number.
+func bitfieldOverflowDirection(signed, set bool, current, operand int64, bits int) int {
+	highest := bitfieldLimit(signed, true, bits)
+	lowest := bitfieldLimit(signed, false, bits)
+
+	if set {
+		if !signed && operand < 0 {
+			return 1
+		}
+		if operand > highest {
+			return 1
+		}
+		if operand < lowest {
+			return -1
+		}
+		return 0
+	}
+
+	// comparisons arranged so that no intermediate result overflows int64
+	if operand > 0 && current > highest-operand {
+		return 1
+	}
+	if operand < 0 && current < lowest-operand {
+		return -1
+	}
+	return 0
 }
 
 func isUnsignedOverflow(value int64, bits int) bool {
